@@ -440,7 +440,13 @@ def concurrent_first_use(ctx, LOG):
     ta, tb = threading.Thread(target=first, daemon=True), threading.Thread(target=second, daemon=True)
     ta.start()
     if not L.GATE_REACHED.wait(10):
-        ctx.undecided('concurrent import: the module body was never entered')
+        stuck = stuck_in_library(ta)
+        if stuck:
+            ctx.check('backend module lazily imported', False, 'first-use-blocked-with-nobody-else-inside',
+                      {'kind': 'concurrent-first-use'}, {'thread a waits at': stuck,
+                                                        'earlier in this process': 'imports of other backends, some of which failed'})
+        else:
+            ctx.undecided('concurrent import: the module body was never entered')
         return 0
     tb.start()
     tb.join(0.3)                       # give the second user the chance to run ahead (it must not)
@@ -452,6 +458,30 @@ def concurrent_first_use(ctx, LOG):
               'half-imported-module-used', case, lambda: {'first': out.get('a'), 'second': out.get('b'), 'want_second': want_b})
     sys.modules.pop('vmonbk_slow', None)
     return 1
+
+
+def stuck_in_library(th, settle=1.5):
+    """Where is a thread that does not come back?  Two samples of its stack, `settle` seconds apart: when both show the
+    same innermost frame, and that frame is a line of mido itself (a blocking primitive called from there has no Python
+    frame of its own), the thread is waiting inside the library for something - and when no other thread is inside
+    the library at all, nothing can ever give it.  Returns a description, or None (not stuck / not in mido)."""
+    import time
+    import traceback
+
+    def where():
+        fr = sys._current_frames().get(th.ident)
+        if fr is None:
+            return None
+        st = traceback.extract_stack(fr)
+        return (st[-1].filename, st[-1].lineno, st[-1].name) if st else None
+    a = where()
+    time.sleep(settle)
+    b = where()
+    if a is None or a != b or not th.is_alive():
+        return None
+    if os.sep + 'mido' + os.sep not in a[0]:
+        return None
+    return f'{os.path.basename(a[0])}:{a[1]} in {a[2]}()'
 
 
 def shared_backend_cases(ctx, LOG):
@@ -513,9 +543,45 @@ def shared_backend_cases(ctx, LOG):
                   'shared-object-used-while-importing', case, lambda: dict(out))
         n += 1
     else:
-        ctx.undecided('shared backend: the module body was never entered')
+        stuck = stuck_in_library(ta)
+        if stuck:
+            # the first thread never got as far as the import, and it is the only one using the library
+            ctx.check('backend module lazily imported', False, 'first-use-blocked-with-nobody-else-inside', case,
+                      {'thread a waits at': stuck, 'earlier in this process': 'another Backend object failed to import, then imported'})
+            n += 1
+        else:
+            ctx.undecided('shared backend: the module body was never entered')
     L.GATE.set()
     sys.modules.pop('vmonbk_slow', None)
+    # (c) the first import failed in a thread that is gone by now; this thread is the next to use the object
+    case = {'kind': 'shared-backend', 'what': 'import failed in a thread that has ended; next use from another thread'}
+    sys.modules.pop('vmonbk_flaky', None)
+    try:
+        L.FAIL.append(1)
+        b3 = Backend('vmonbk_flaky/API9')
+        th = threading.Thread(target=use, args=('c1', lambda: b3.open_input('x')), daemon=True)
+        th.start()
+        th.join(10)
+        del L.FAIL[:]
+        th2 = threading.Thread(target=use, args=('c2', lambda: b3.open_input('x')), daemon=True)
+        th2.start()
+        th2.join(5)
+        if th2.is_alive():
+            stuck = stuck_in_library(th2)
+            if stuck:
+                ctx.check('backend module lazily imported', False, 'use-after-failed-import-in-ended-thread-blocks', case,
+                          {'thread waits at': stuck, 'first thread': out.get('c1')})
+            else:
+                ctx.undecided('shared backend: second use did not return and is not waiting inside mido')
+        else:
+            ctx.check('backend module lazily imported', 'ImportError' in str(out.get('c1')) and out.get('c2') == 'Input',
+                      'use-after-failed-import-in-ended-thread', case, lambda: dict(out))
+        n += 1
+    except Exception as exc:
+        ctx.fail('no exception', f'shared-backend:ended-thread:{type(exc).__name__}', case, f'{type(exc).__name__}: {exc}')
+    finally:
+        del L.FAIL[:]
+        sys.modules.pop('vmonbk_flaky', None)
     return n
 
 
@@ -608,6 +674,37 @@ def set_backend_sequences(ctx, LOG):
         ctx.check('backend module lazily imported', 'vmonbk_d' in sys.modules and mido.backend.loaded,
                   'load-flag', case, None)
         n += 3
+        # a backend chosen by name is a new Backend with the documented defaults, whatever was installed before it:
+        # in particular it reads the MIDO_DEFAULT_* variables again after an object that had that turned off
+        for prev_env in (False, True):
+            for nxt in ('vmonbk_b', 'vmonbk_a/JACK', None):
+                purge()
+                case = {'kind': 'set_backend', 'seq': 'environ-policy', 'previous_use_environ': prev_env, 'next': nxt}
+                os.environ['MIDO_DEFAULT_OUTPUT'] = 'envout'
+                try:
+                    mido.set_backend(Backend('vmonbk_a/ALSA', use_environ=prev_env))
+                    del LOG[:]
+                    mido.open_output()
+                    first = [e[:3] for e in LOG if e[0] != 'import']
+                    if nxt is None:
+                        os.environ['MIDO_BACKEND'] = 'vmonbk_c'
+                        mido.set_backend()
+                        os.environ.pop('MIDO_BACKEND')
+                    else:
+                        mido.set_backend(nxt)
+                    del LOG[:]
+                    mido.open_output()
+                    second = [e[:3] for e in LOG if e[0] != 'import']
+                    mod2 = (nxt or 'vmonbk_c').partition('/')[0]
+                    ctx.check('set_backend rebinds top-level functions',
+                              first == [('Output', 'vmonbk_a', 'envout' if prev_env else None)]
+                              and second == [('Output', mod2, 'envout')] and mido.backend.use_environ is True,
+                              'backend-by-name-inherits-from-previous', case,
+                              lambda: {'first': first, 'second': second, 'use_environ': mido.backend.use_environ})
+                finally:
+                    os.environ.pop('MIDO_DEFAULT_OUTPUT', None)
+                    os.environ.pop('MIDO_BACKEND', None)
+                n += 1
         # a set_backend() that fails chooses nothing: the previous backend stays bound everywhere
         FNS = ('open_input', 'open_output', 'open_ioport', 'get_input_names', 'get_output_names', 'get_ioport_names')
         for prev in ('vmonbk_a/ALSA', 'vmonbk_c'):
